@@ -31,8 +31,6 @@ def impl_next_id(bid):
 def oracle(rep, old, new, generated):
     """The property itself, on the implementation's output. generated: old was produced by bumpver."""
     if new is None or new == "!overflow":
-        if old and set(old) <= {"9"} or (old.isdigit() and int(old) < 1000 and False):
-            return
         # failure is only allowed at the documented maximum (all digits 9 after padding)
         padded = str(int(old) + 1000) if int(old) < 1000 else old
         if set(padded) != {"9"}:
@@ -131,7 +129,9 @@ CLI_PATTERNS = [("vYYYY0M.BUILD[-TAG]", "v2021%02d.%s", r"^v\d{6}\.(\d+)"), ("YY
                 ("YYYY.BUILD[PYTAGNUM]", "2021.%sb0", r"^\d{4}\.(\d+)"), ("vYYYY.BUILD[-TAGNUM]", "v2021.%s-beta1", r"^v\d{4}\.(\d+)"),
                 ("GGGG.0V.BUILD", "2021.05.%s", r"^\d{4}\.\d\d\.(\d+)$"), ("vGGGGw0V.BUILD[-TAG]", "v2021w05.%s", r"^v\d{4}w\d\d\.(\d+)"),
                 # BLD shows the same id without its zero padding
-                ("YYYY.BLD", "2021.%s", r"^\d{4}\.(\d+)$")]
+                ("YYYY.BLD", "2021.%s", r"^\d{4}\.(\d+)$"),
+                # BUILD and BLD in one pattern: the padded spelling is the one that is read and bumped
+                ("vYYYY.BUILD+BLD", "v2021.%s+BLD", r"^v\d{4}\.(\d+)\+\d+$")]
 
 
 def cli_stream(rep, r, n):
@@ -141,9 +141,12 @@ def cli_stream(rep, r, n):
     for i_ in range(n):
         pat, tmpl, rx = CLI_PATTERNS[i_ % len(CLI_PATTERNS)]
         bid = r.choice(["7", "42", "099", "0998", "1001", "1999", "22000", "0001", "9998", "10999", "899999", "01234", "09997", "000123", "0010000", "1009", "1099", "1999", "10009", str(r.randrange(0, 99999))])
-        if "BLD" in pat:
+        if "BLD" in pat and "BUILD" not in pat:
             bid = bid.lstrip("0") or "7"       # BLD is the id without zero padding
+        if "BLD" in pat and not bid.strip("0"):
+            bid = "7"
         old = tmpl % ((r.randrange(1, 12), bid) if tmpl.count("%") == 2 else (bid,))
+        old = old.replace("+BLD", "+" + (bid.lstrip("0") or "0"))
         args = ["test", old, pat]
         flags = []
         if r.random() < 0.5:
@@ -170,7 +173,7 @@ def cli_stream(rep, r, n):
         if not m:
             rep.violation("the new version does not carry a BUILD where the pattern has one", input=inp, **{"class": "no-build"})
             continue
-        if "BLD" in pat:
+        if "BLD" in pat and "BUILD" not in pat:
             # without padding only the numbers can be compared
             if not int(m.group(1)) > int(bid):
                 rep.violation("new BUILD is not numerically greater", input=dict(inp, old=bid, new=m.group(1)), **{"class": "not-greater-int"})
